@@ -14,13 +14,27 @@ Inductive val :=
 | VS (s : str)                     (* String *)
 | VM (l : list (str * val)).       (* a nested map literal (ListMap) *)
 
-(* the BoolFunc of value.Equal as Map.Equals receives it (operationMatrixDeepEqual.ef = the simple
-   matrix): numbers compare across Int/Float, strings with strings, everything else - including
-   two nested maps - is the error "operation '=' not defined" *)
-Definition veq (a b : val) : option bool :=
+(* the BoolFunc of value.Equal as Map.Equals receives it (after the repair of the deep equality:
+   the element comparison recurses): numbers compare across Int/Float, strings with strings, nested
+   maps key-wise (Map.Equals: sizes, then every entry of the receiver looked up in the other map);
+   everything else is the error "operation '=' not defined".  Map.Equals hands the other map's
+   value first to the element comparison; the outcome does not depend on the direction and the
+   model keeps the receiver's value first so that the recursion is structural. *)
+Fixpoint veq (a b : val) {struct a} : option bool :=
   match a, b with
   | VI x, VI y | VF x, VF y | VI x, VF y | VF x, VI y => Some (Z.eqb x y)
   | VS x, VS y => Some (str_eqb x y)
+  | VM l, VM m =>
+      if negb (Nat.eqb (length l) (length m)) then Some false else
+      (fix go (l : list (str * val)) : option bool :=
+         match l with
+         | [] => Some true
+         | (k, v) :: r =>
+             match assoc k m with
+             | Some o => match veq v o with Some true => go r | x => x end
+             | None => Some false
+             end
+         end) l
   | _, _ => None
   end.
 
